@@ -68,8 +68,24 @@ func (ck *Checker) stubOverlay(scratch string, in *Instance) (map[string]string,
 			return nil
 		})
 	}
+	randFiles := map[string]bool{}
+	if in.stubSet["randstub"] {
+		filepath.Walk(ck.repo, func(p string, info os.FileInfo, err error) error {
+			if err != nil || info.IsDir() || !strings.HasSuffix(p, ".go") || strings.HasSuffix(p, "_test.go") {
+				return nil
+			}
+			b, _ := os.ReadFile(p)
+			if bytes.Contains(b, []byte("\"math/rand\"")) && bytes.Contains(b, []byte("rand.Intn(")) {
+				randFiles[p] = true
+			}
+			return nil
+		})
+	}
 	out := map[string]string{}
 	files := map[string]bool{}
+	for f := range randFiles {
+		files[f] = true
+	}
 	for f := range byFile {
 		files[f] = true
 	}
@@ -110,7 +126,7 @@ func (ck *Checker) stubOverlay(scratch string, in *Instance) (map[string]string,
 				if rn != t.recv {
 					continue
 				}
-				if err := rewriteStubBody(fd, t.spec); err != nil {
+				if err := rewriteStubBody(fset, fd, t.spec); err != nil {
 					return nil, fmt.Errorf("%s: %v", t.spec.name, err)
 				}
 				changed = true
@@ -121,6 +137,19 @@ func (ck *Checker) stubOverlay(scratch string, in *Instance) (map[string]string,
 				if call, ok := c.Node().(*ast.CallExpr); ok {
 					if sel, ok := call.Fun.(*ast.SelectorExpr); ok && sel.Sel.Name == "Now" {
 						if id, ok := sel.X.(*ast.Ident); ok && id.Name == "time" && len(call.Args) == 0 {
+							sel.X = ast.NewIdent("zzverif")
+							changed = true
+						}
+					}
+				}
+				return true
+			}, nil)
+		}
+		if randFiles[file] {
+			astutil.Apply(af, func(c *astutil.Cursor) bool {
+				if call, ok := c.Node().(*ast.CallExpr); ok {
+					if sel, ok := call.Fun.(*ast.SelectorExpr); ok && sel.Sel.Name == "Intn" {
+						if id, ok := sel.X.(*ast.Ident); ok && id.Name == "rand" && id.Obj == nil {
 							sel.X = ast.NewIdent("zzverif")
 							changed = true
 						}
@@ -184,7 +213,16 @@ func (ck *Checker) stubOverlay(scratch string, in *Instance) (map[string]string,
 
 // rewriteStubBody: name the results, replace the body by
 //   zzerr = zzverif.Stub("name", outs...) ; return
-func rewriteStubBody(fd *ast.FuncDecl, spec *stubSpec) error {
+func rewriteStubBody(fset *token.FileSet, fd *ast.FuncDecl, spec *stubSpec) error {
+	if spec.custom != "" {
+		src := "package p\nfunc _() {\n" + spec.custom + "\n}\n"
+		f, err := parser.ParseFile(fset, "custom_"+sanitize(spec.name)+".go", src, 0)
+		if err != nil {
+			return err
+		}
+		fd.Body = f.Decls[0].(*ast.FuncDecl).Body
+		return nil
+	}
 	res := fd.Type.Results
 	if res == nil || len(res.List) == 0 {
 		return fmt.Errorf("stub without results")
